@@ -8,7 +8,7 @@ THEOREMS = [("FlatModel.Props.C09", t) for t in ("FC.C09.clone_equal", "FC.C09.c
                                                   "FC.C09.cloneFrom_observe", "FC.sim_observe", "FC.reach_inv")]
 THEOREMS += [("FlatModel.Props.UniverseOps", "FC.Universe." + t) for t in ("C09_every_composition", "C09_sim_every_composition", "C09_C10_reach_every_composition", "reach_inv_every_composition")]
 LEAN_TARGETS = ["FlatModel.Generated.Covered", "FlatModel.Generated.CoveredOps", "FlatModel.Generated.CoveredUniverseOps"]
-PROFILES = {"quick": ["checked"], "thorough": ["checked", "wrapping"], "search": ["checked"]}
+PROFILES = {"quick": ["checked", "wrapping"], "thorough": ["checked", "wrapping"], "search": ["checked"]}
 RULE = ("history -> clone, or clone_from into a destination pre-filled by an unrelated history (longer, shorter, more or fewer "
         "columns, other variants) -> the same continuation on both copies (indices compared impl vs impl) -> divergent "
         "continuations -> every ordinal re-read on both; non-trivial when destination and source of clone_from differ in "
